@@ -61,6 +61,7 @@ type outcome struct {
 	Detail string
 	Died   bool // the worker died (or was killed) while running this case
 	Micros int64
+	How    string
 }
 
 func (o outcome) failed() bool {
@@ -83,6 +84,11 @@ type orch struct {
 	par     int
 	known   map[string]bool
 	strays  int64
+	maxFrac float64
+	maxFracCase string
+	maxMicros int64
+	maxMicrosCase string
+	strayInfo []string
 }
 
 func (o *orch) caseOf(it item) Case {
@@ -157,7 +163,7 @@ func (o *orch) spawn(items []item, timeout time.Duration, deadline int64) (outs 
 	jf0.Close()
 	t0 := time.Now()
 	defer func() { dbg("worker %d: %d items, %d finished, %v", n, len(items), next, time.Since(t0)) }()
-	wo := o.c.SpawnWorker([]string{path}, []string{"GOMAXPROCS=1", "TMPDIR=" + o.dir, "GOTRACEBACK=single"}, timeout, memLimit)
+	wo := o.c.SpawnWorker([]string{path}, []string{"GOMAXPROCS=1", "GOGC=15", "TMPDIR=" + o.dir, "GOTRACEBACK=single"}, timeout, memLimit)
 	outs = make([]outcome, len(items))
 	pending := -1
 	data, err := os.ReadFile(path + ".journal")
@@ -181,6 +187,9 @@ func (o *orch) spawn(items []item, timeout time.Duration, deadline int64) (outs 
 					outs[k] = outcome{Done: true, Status: p[2], Alloc: a, InLen: l, Site: unb64(p[5]), Detail: unb64(p[6])}
 					if len(p) >= 8 {
 						outs[k].Micros, _ = strconv.ParseInt(p[7], 10, 64)
+					}
+					if len(p) >= 9 {
+						outs[k].How = p[8]
 					}
 					next = k + 1
 				}
@@ -207,7 +216,11 @@ func (o *orch) spawn(items []item, timeout time.Duration, deadline int64) (outs 
 	} else if wo.ExitCode != 0 && next > 0 {
 		// the worker died between two cases (for example in a background goroutine): nobody to blame
 		atomic.AddInt64(&o.strays, 1)
-		o.c.Sample(map[string]interface{}{"worker_died_between_cases_after": o.caseOf(items[next-1]).String(), "stderr": tailStr(readFileHead(path+".stderr", 600), 600)})
+		lastErrMu.Lock()
+		if len(o.strayInfo) < 8 {
+			o.strayInfo = append(o.strayInfo, fmt.Sprintf("after %s: exit=%d %s", o.caseOf(items[next-1]).String(), wo.ExitCode, readFileHead(path+".stderr", 1500)))
+		}
+		lastErrMu.Unlock()
 	} else if wo.ExitCode != 0 && next == 0 && !stop {
 		// died outside any case: set-up problem
 		outs = nil
@@ -346,7 +359,15 @@ func rootKey(cs Case, o outcome) string {
 	if o.Site != "" {
 		return cs.Group + "|" + o.Status + "@" + o.Site
 	}
-	return o.Status + "|" + family(cs) + "|" + cs.devKinds() + "|" + cs.devFields()
+	if len(cs.Devs) >= 2 {
+		// two deviations: the field pair is not part of the key (one cause shows under many pairs)
+		return o.Status + "|" + family(cs) + "|" + cs.devKinds()
+	}
+	kinds := cs.devKinds()
+	if kinds == "struct" || kinds == "varint" {
+		kinds = "value" // a field set through the model or through its varint: the same thing
+	}
+	return o.Status + "|" + family(cs) + "|" + kinds + "|" + cs.devFields()
 }
 
 type failRec struct {
@@ -494,7 +515,15 @@ func (o *orch) account(items []item, outs []outcome, depth int) (fails []failRec
 		if len(cs.Devs) > 0 || cs.Raw != "" || cs.Group == "size" {
 			o.c.Distinct("nontrivial", cs.tupleKey())
 		}
-		o.c.Distinct("outcomes", r.Status)
+		o.c.Distinct("outcomes", cs.Group+":"+r.Status+":"+r.How)
+		if r.Status == "ok" {
+			if f := float64(r.Alloc) / float64(allowedAlloc(r.InLen)); f > o.maxFrac {
+				o.maxFrac, o.maxFracCase = f, cs.String()
+			}
+			if r.Micros > o.maxMicros {
+				o.maxMicros, o.maxMicrosCase = r.Micros, cs.String()
+			}
+		}
 		if r.failed() {
 			fails = append(fails, failRec{pos: i, cs: cs, out: r})
 			o.c.Add("failing_cases", 1)
@@ -604,9 +633,19 @@ func (o *orch) pairsOf(outs []outcome) []item {
 		}(gi, groups[k])
 	}
 	wg.Wait()
+	// interleave the groups so that a time cap removes evenly from all of them
 	var all []item
-	for _, r := range results {
-		all = append(all, r...)
+	for k := 0; ; k++ {
+		added := false
+		for _, r := range results {
+			if k < len(r) {
+				all = append(all, r[k])
+				added = true
+			}
+		}
+		if !added {
+			break
+		}
 	}
 	return all
 }
@@ -682,6 +721,24 @@ func run(c *core.Ctx) {
 	if !c.Quick() && atomic.LoadInt32(&o.stopped) == 0 && !c.Expired() {
 		pairs := o.pairsOf(outs)
 		c.Set("pairs_enumerated", len(pairs))
+		if os.Getenv("C09_DEBUG") != "" {
+			byK := map[string]int{}
+			for _, it := range pairs {
+				cs := o.caseOf(it)
+				byK[cs.Group+"/"+cs.devKinds()]++
+			}
+			var ks []string
+			for k := range byK {
+				ks = append(ks, k)
+			}
+			sort.Slice(ks, func(a, b int) bool { return byK[ks[a]] > byK[ks[b]] })
+			for _, k := range ks {
+				dbg("  pairs %7d %s", byK[k], k)
+			}
+			if os.Getenv("C09_DEBUG") == "pairs" {
+				os.Exit(0)
+			}
+		}
 		pouts := o.runBatch(pairs)
 		pf, pn := o.account(pairs, pouts, 2)
 		if pn > 0 {
@@ -701,6 +758,11 @@ func run(c *core.Ctx) {
 	c.Set("worker_processes", atomic.LoadInt64(&o.spawns))
 	c.Set("worker_deaths_attributed", atomic.LoadInt64(&o.deaths))
 	c.Set("worker_deaths_between_cases", atomic.LoadInt64(&o.strays))
+	if len(o.strayInfo) > 0 {
+		c.Set("worker_deaths_between_cases_detail", o.strayInfo)
+	}
+	c.Set("largest_alloc_fraction_of_limit_among_passing_cases", fmt.Sprintf("%.3f (%s)", o.maxFrac, o.maxFracCase))
+	c.Set("slowest_passing_case", fmt.Sprintf("%.2fs (%s)", float64(o.maxMicros)/1e6, o.maxMicrosCase))
 	c.Set("root_causes_confirmed", conf)
 	c.Set("failures_not_confirmed_in_isolation", unconf)
 	c.Set("worker_address_space_limit_bytes", memLimit)
